@@ -631,7 +631,18 @@ func (c *Ctx) akaEmitsAllRule(r *Report, rule string) {
 			}
 		}
 	}
-	r.Check(nRange == 1 && okAll, rule, "(*eap.EapAkaPrime).getAttrsKeys", c.Pos(gk.Pos()), "one range over eapAkaPrime.attributes, every key appended", fmt.Sprintf("%d range(s) over the attribute map; %s", nRange, why))
+	if nRange == 0 {
+		// no range at all: the key space (one octet) walked upwards, every key that is present appended
+		if why2, ok := c.walksKeySpace(gk); ok {
+			r.ok(rule, "(*eap.EapAkaPrime).getAttrsKeys", c.Pos(gk.Pos()), why2, true)
+			nRange, okAll = -1, true
+		} else {
+			why = why2
+		}
+	}
+	if nRange >= 0 {
+		r.Check(nRange == 1 && okAll, rule, "(*eap.EapAkaPrime).getAttrsKeys", c.Pos(gk.Pos()), "one range over eapAkaPrime.attributes, every key appended", fmt.Sprintf("%d range(s) over the attribute map; %s", nRange, why))
+	}
 	// Marshal: lookup in the same map by the iterated key
 	okL := false
 	for _, b := range ma.Blocks {
@@ -644,6 +655,138 @@ func (c *Ctx) akaEmitsAllRule(r *Report, rule string) {
 		}
 	}
 	r.Check(okL, rule, "(*eap.EapAkaPrime).Marshal looks the keys up in the attribute map", c.Pos(ma.Pos()), "attributes[key]", "Marshal does not read the attributes of the collected keys from the map")
+}
+
+// walksKeySpace: fn has a loop whose counter runs from 0 by 1 over every value of the map's key type (an
+// unsigned 8-bit type: 0..255), looks the counter (converted to the key type) up in the attribute map with the
+// comma-ok form and appends it on the ok edge, with no other branch in the loop.
+func (c *Ctx) walksKeySpace(fn *ssa.Function) (string, bool) {
+	for _, li := range naturalLoops(fn) {
+		h := li.header
+		iff, ok := h.Instrs[len(h.Instrs)-1].(*ssa.If)
+		if !ok {
+			continue
+		}
+		cmp, ok := iff.Cond.(*ssa.BinOp)
+		if !ok || !li.body[h.Succs[0]] || li.body[h.Succs[1]] {
+			continue
+		}
+		ctr, ok := cmp.X.(*ssa.Phi)
+		if !ok || ctr.Block() != h {
+			continue
+		}
+		k, ok := cmp.Y.(*ssa.Const)
+		if !ok || k.Value == nil {
+			continue
+		}
+		// counter 0, +1
+		good := true
+		for i, e := range ctr.Edges {
+			if li.body[h.Preds[i]] {
+				bo, ok := e.(*ssa.BinOp)
+				if !ok || bo.Op != token.ADD || bo.X != ssa.Value(ctr) {
+					good = false
+					break
+				}
+				if one, ok := bo.Y.(*ssa.Const); !ok || one.Value == nil || one.Value.ExactString() != "1" {
+					good = false
+				}
+				continue
+			}
+			if z, ok := e.(*ssa.Const); !ok || z.Value == nil || z.Value.ExactString() != "0" {
+				good = false
+			}
+		}
+		if !good {
+			continue
+		}
+		// the look-up
+		var lk *ssa.Lookup
+		nIf := 0
+		for _, b := range sortedBlocks(li.body) {
+			if _, isIf := b.Instrs[len(b.Instrs)-1].(*ssa.If); isIf {
+				nIf++
+			}
+			for _, ins := range b.Instrs {
+				if x, ok := ins.(*ssa.Lookup); ok && x.CommaOk {
+					if _, fld, isF := fieldLoad(x.X); isF && fld == "attributes" {
+						lk = x
+					}
+				}
+			}
+		}
+		if lk == nil {
+			continue
+		}
+		mt := lk.X.Type().Underlying().(*types.Map)
+		kb, isBasic := mt.Key().Underlying().(*types.Basic)
+		if !isBasic || kb.Kind() != types.Uint8 {
+			return "the key type of the attribute map is not an octet: its values cannot be enumerated by a loop", false
+		}
+		// the bound covers 0..255: ctr <= 255 or ctr < 256, counter wider than the key
+		if _, _, isInt := c.NewFA(fn).typeRange(ctr.Type()); !isInt {
+			continue
+		}
+		if cb, ok := ctr.Type().Underlying().(*types.Basic); !ok || cb.Kind() == types.Uint8 || cb.Kind() == types.Int8 {
+			continue
+		}
+		bound := k.Value.ExactString()
+		if !(cmp.Op == token.LEQ && bound == "255") && !(cmp.Op == token.LSS && bound == "256") {
+			return fmt.Sprintf("the walk over the key space stops at %s %s, not after 255", cmp.Op, bound), false
+		}
+		cv, ok := lk.Index.(*ssa.Convert)
+		if !ok || cv.X != ssa.Value(ctr) {
+			return "the key looked up is not the loop counter converted to the key type", false
+		}
+		// the ok edge appends that key; nothing else branches
+		var okEx *ssa.Extract
+		for _, ref := range *lk.Referrers() {
+			if ex, isEx := ref.(*ssa.Extract); isEx && ex.Index == 1 {
+				okEx = ex
+			}
+		}
+		if okEx == nil || nIf != 2 {
+			return fmt.Sprintf("the walk has %d branches (expected the loop test and the presence test)", nIf), false
+		}
+		var okIf *ssa.If
+		for _, ref := range *okEx.Referrers() {
+			if i2, isIf := ref.(*ssa.If); isIf && i2.Cond == ssa.Value(okEx) {
+				okIf = i2
+			}
+		}
+		if okIf == nil {
+			return "the presence flag of the look-up is not what the walk branches on", false
+		}
+		then := okIf.Block().Succs[0]
+		appended := false
+		for _, ins := range then.Instrs {
+			call, isCall := ins.(*ssa.Call)
+			if !isCall {
+				continue
+			}
+			if bi, isB := call.Call.Value.(*ssa.Builtin); !isB || bi.Name() != "append" {
+				continue
+			}
+			if sl, isSl := call.Call.Args[1].(*ssa.Slice); isSl {
+				if al, isAl := sl.X.(*ssa.Alloc); isAl {
+					for _, ref := range *al.Referrers() {
+						if ia, isIA := ref.(*ssa.IndexAddr); isIA {
+							for _, r2 := range *ia.Referrers() {
+								if st, isSt := r2.(*ssa.Store); isSt && st.Val == ssa.Value(cv) {
+									appended = true
+								}
+							}
+						}
+					}
+				}
+			}
+		}
+		if !appended {
+			return "a key that is present is not appended", false
+		}
+		return "the key space 0..255 is walked upwards and every key present in eapAkaPrime.attributes is appended", true
+	}
+	return "no range over the attribute map and no walk over its key space", false
 }
 
 // madeWithLenOf: every value stored into the slice variable a is make([]T, len(m)) for the ranged map m (the same
